@@ -229,6 +229,20 @@ def programs(tier, seed):
         c = cs_list[0]
         L = "var v;\nproc main() is 0((v %s %s) + 40)\n" % (sym, lit(c)); V = "var v; var x;\nproc main() is 0((v %s x) + 40)\n" % sym
         mixed.append(("mixed.%s.n.%d" % (tok, len(mixed)), "shape", (L, V, [c], tok in ("AND", "OR"))))
+    # a constant on one side, on the other a sub-expression that needs a register of its own (compound expression, function
+    # call -- see below): operand scheduling must not depend on whether the other operand is known at compile time
+    for tok, sym in BIN_OPS:
+        boolop = tok in ("AND", "OR")
+        comp = "(~v)" if boolop else "(v + 3)"
+        for c in ([0, 1] if boolop else ([5, -65537] if tier == "quick" else [0, 5, -1, 65536, -65537, 2147483647])):
+            for side in ("r", "l"):
+                if side == "l":
+                    L = "var v;\nproc main() is 0(%s %s %s)\n" % (lit(c), sym, comp); V = "var v; var x;\nproc main() is 0(x %s %s)\n" % (sym, comp)
+                else:
+                    L = "var v;\nproc main() is 0(%s %s %s)\n" % (comp, sym, lit(c)); V = "var v; var x;\nproc main() is 0(%s %s x)\n" % (comp, sym)
+                mixed.append(("mixed.%s.c%s.%d" % (tok, side, len(mixed)), "shape", (L, V, [c], boolop)))
+        # (operands that are function calls were tried and dropped: the return through BRB makes the program counter
+        #  symbolic for the path-exploring back end, every such job timed out at 600 s)
     for c in (0, 1, 5, -3, 65536):
         mixed.append(("mixed.NOTNEG.%d" % len(mixed), "shape", ("val k = %s;\nvar v;\nproc main() is 0(v + ((~k) + (-k)))\n" % lit(c), "var v; var x;\nproc main() is 0(v + ((~x) + (-x)))\n", [c], False)))
     return progs + shapes + mixed
